@@ -310,6 +310,7 @@ func Execute(t *testing.T, sc *Scenario, plan *Plan, ch *Chooser, maxSteps int, 
 		s.FreeRun()
 		close(e.Abort)
 		cancel()
+		e.CancelNow()
 		for i := 0; i < 4; i++ {
 			synctest.Wait()
 			if live, _ := s.Live(); live == 0 {
